@@ -359,7 +359,7 @@ Definition spec_in (s : kstep) (env : kenv) : option string :=
   spec_accepts (with_remote (s_cf s) rem) ks (s_now s) (s_cred s).
 
 Lemma stateless_spec s env :
-  sane_clock (s_cf s) (s_now s) -> guard_F3 (s_cred s) = false ->
+  sane_clock (s_cf s) (s_now s) -> open_guards (s_cf s) (s_cred s) = false ->
   accepted_sub (stateless true true s env) = spec_in s env.
 Proof.
   intros Hs G. unfold stateless, spec_in. destruct (published s env) as [rem ks].
@@ -375,7 +375,7 @@ Definition meets_spec (pre : list kstep) (s : kstep) (r : result) : Prop :=
   (forall sub, (forall env, In env (worlds pre s) -> spec_in s env = Some sub) -> r = Accepted sub).
 
 Lemma judged_meets_spec pre s r :
-  sane_clock (s_cf s) (s_now s) -> guard_F3 (s_cred s) = false ->
+  sane_clock (s_cf s) (s_now s) -> open_guards (s_cf s) (s_cred s) = false ->
   judged_statelessly true true pre s r -> meets_spec pre s r.
 Proof.
   intros Hs G (env & Hin & Hfr & ->). split.
@@ -389,7 +389,7 @@ Theorem history_spec h pre s post r :
   (exists v, uniform_validation v h) \/ guard_F4 true true h = false ->
   h = pre ++ s :: post ->
   nth_error (run_history true true false h) (length pre) = Some r ->
-  sane_clock (s_cf s) (s_now s) -> guard_F3 (s_cred s) = false ->
+  sane_clock (s_cf s) (s_now s) -> open_guards (s_cf s) (s_cred s) = false ->
   meets_spec pre s r.
 Proof.
   intros [[v Hv]|G] E Hr Hs G3; apply judged_meets_spec; try assumption.
@@ -400,7 +400,7 @@ Qed.
 Theorem history_spec_fixed h pre s post r :
   h = pre ++ s :: post ->
   nth_error (run_history true true true h) (length pre) = Some r ->
-  sane_clock (s_cf s) (s_now s) -> guard_F3 (s_cred s) = false ->
+  sane_clock (s_cf s) (s_now s) -> open_guards (s_cf s) (s_cred s) = false ->
   meets_spec pre s r.
 Proof.
   intros E Hr Hs G3. apply judged_meets_spec; try assumption.
@@ -411,7 +411,7 @@ Theorem history_fixed_both h pre s post r :
   h = pre ++ s :: post ->
   nth_error (run_history true true true h) (length pre) = Some r ->
   (judged_statelessly true true pre s r) /\
-  (sane_clock (s_cf s) (s_now s) -> guard_F3 (s_cred s) = false -> meets_spec pre s r).
+  (sane_clock (s_cf s) (s_now s) -> open_guards (s_cf s) (s_cred s) = false -> meets_spec pre s r).
 Proof.
   intros E Hr. split.
   - exact (history_stateless_fixed true true h pre s post r E Hr).
